@@ -383,3 +383,8 @@ def extract_oracle(text, pos, opts, res):
     if depth != 0:
         return 'unbalanced parentheses in %r' % text[a:b]
     return None
+
+
+# a non-terminating implementation call must not block the check (see common.limited)
+import common as _common  # noqa: E402
+_common.limit_impl(globals(), ['impl_evaluate', 'impl_parse', 'impl_extract'])
